@@ -42,6 +42,20 @@ CHECKS = {
              "all sequential histories. Tie: conflict-biased seeded histories with autocommit probes after every Commit/Rollback.",
         design="7/C03", technique="Coq proof on the abstract machine + refinement transfer + differential correspondence run",
         note="Sequential commits only (concurrent commits are C07). " + NOTE_COMMON),
+    "C04": dict(
+        text="Theorems (Coq): from every state reachable by any history (invariants Sound preserved by every operation), a process "
+             "death between two operations recovers (Load in a fresh process) to a state related to the abstract machine's Reopen "
+             "of the acknowledged prefix: acknowledged writes/commits in effect, nothing uncommitted visible "
+             "(C04_crash_between_operations); a death INSIDE an operation - content written but no version record yet, any subset "
+             "of the cleaner's/collector's physical deletions done, Commit's single Badger transaction applied or not - recovers to "
+             "the prefix or to the prefix plus the whole operation (C04_inflight_atomic), and only autocommit writes and Commits "
+             "can become visible (C04_uncommitted_invisible); recovery is idempotent also when it is itself interrupted; every "
+             "listed key is readable. Tie: every persistent mutation of seeded workloads is a crash point: the workload is re-run "
+             "in a child process that dies right before it, a fresh process observes (twice, and after a further death inside "
+             "recovery); the mutation event sequence of each operation is compared with the micro-step table.",
+        design="7/C04", technique="Coq invariant proof over persisted records + crash-point enumeration on the real code",
+        note="Process death, not power loss (Badger SyncWrites=false; assumption on Badger/file-system atomicity per call, DESIGN "
+             "section 3). Individual content-file writes are not separate crash points in this revision. " + NOTE_COMMON),
     "C05": dict(
         text="Theorems (Coq): for every sequential history with Close/Open at any positions the faithful model equals the abstract "
              "machine, whose Reopen keeps every committed value and forgets open transactions (C05_histories_with_reopen, "
